@@ -780,7 +780,12 @@ class Message:
         is_ip_literal = parsed.netloc.startswith("[") or (
             parsed.hostname.count(".") == 3
             and all(c in "0123456789." for c in parsed.hostname)
-            and all(x and int(x) <= 255 for x in parsed.hostname.split("."))
+            and all(
+                # (the length check keeps int() from refusing absurdly long
+                # digit strings with a plain ValueError)
+                x and len(x.lstrip("0")) <= 3 and int(x.lstrip("0") or "0") <= 255
+                for x in parsed.hostname.split(".")
+            )
         )
 
         if set_uri_host and not is_ip_literal:
